@@ -100,6 +100,17 @@ def handwritten_schema():
     return s
 
 
+def shared_root_schema():
+    """the handwritten schema with ONE object type declared as both the query and the mutation root
+    (`schema { query: Query mutation: Query }`, seed C09-h): the operation keyword, not the root type, selects the serial chain"""
+    s = handwritten_schema()
+    s["types"]["Query"]["fields"] = s["types"]["Query"]["fields"] + s["types"]["Mutation"]["fields"]
+    del s["types"]["Mutation"]
+    s["mutation"] = "Query"
+    s["resolvers"] = {(t, f["name"]) for t in ("Item", "Query") for f in s["types"][t]["fields"]}
+    return s
+
+
 HAND_QUERIES = [
     "{ items { v w } ping }",
     "{ items { v } one { v w } ping }",
